@@ -51,6 +51,7 @@ CLAUSES = {
     "every header-producing API (str and bytes values, reason, cookie fields, redirect url)": "tie: complete enumeration of single bytes per field",
 }
 PARALLEL = True
+CASE_TIMEOUT = 90     # the first case of a worker pays for importing tornado from source (-B) on a loaded machine
 LEVEL_NOTE = "model of the response header path proved for all call sequences; tied by exhaustive single-byte enumeration per API field"
 
 SERVER, CTYPE, DATE = "S/1", "text/html; charset=UTF-8", "Thu, 01 Jan 2026 00:00:00 GMT"
@@ -617,7 +618,14 @@ def random_case(rng):
     return {"ops": ops, "field": "random"}
 
 
+def warm():
+    """import everything the workers need in the parent, so that forked workers do not each compile tornado"""
+    import tornado.web, tornado.httpserver, tornado.httputil, tornado.http1connection, tornado.iostream  # noqa
+    from core import vloop, faketransport  # noqa
+
+
 def gen_cases(rng, tier):
+    warm()
     if tier == "quick":
         yield from enum_cases()
         n = 3000
